@@ -335,11 +335,15 @@ class SelectorWorld:
             self.log.add("MUTATE", op["h"])
             for m in self.meta.values():
                 if m.get("data") and op["h"] in m["data"]:
-                    # the data of earlier fits is gone: a continuation on "the same data" is
-                    # no longer possible, and reads would see the new values
-                    m["retired_for_warm"] = True
+                    # the caller's array that was passed to the last fit now holds other
+                    # values: reads that take it as an argument would see them
                     m["last_ok"] = None
                     m["data_mutated"] = True
+                    if self.pid == "C01":
+                        # C01 histories continue on the array object: not "the same data" any more
+                        m["retired_for_warm"] = True
+                    # C06/C08: a continuation is in the domain iff it is given the same
+                    # *values* (possibly in another array object) - decided by op_FIT
 
     def op_RESTART(self, op, i):
         name = op["obj"]
@@ -385,10 +389,11 @@ class SelectorWorld:
             try:
                 have = int(obj.n_selected_)
                 want = resolve_n_to_select(m["resolved"].get("n_to_select"), X.shape[info["axis"]])
-                same = m["data"] is None or m["data"] == (op["X"], op.get("y")) or (
-                    self.heap.entries[m["data"][0]]["snap"] == self.heap.entries[op["X"]]["snap"]
-                    and (m["data"][1] is None) == (op.get("y") is None)
-                    and (m["data"][1] is None or self.heap.entries[m["data"][1]]["snap"] == self.heap.entries[op["y"]]["snap"])
+                ds = m.get("data_snap")
+                same = ds is None or (
+                    ds[0] == self.heap.entries[op["X"]]["snap"]
+                    and (ds[1] is None) == (op.get("y") is None)
+                    and (ds[1] is None or ds[1] == self.heap.entries[op["y"]]["snap"])
                 )
             except Exception:  # noqa: BLE001
                 have, want, same = 0, 1, True
@@ -463,6 +468,7 @@ class SelectorWorld:
             self.count("warm_fits_ok")
         m["ok_fits"] += 1
         m["data"] = (op["X"], op.get("y"))
+        m["data_snap"] = (self.heap.entries[op["X"]]["snap"], self.heap.entries[op["y"]]["snap"] if op.get("y") else None)
         try:
             ns = int(obj.n_selected_)
             idx = [int(v) for v in obj.selected_idx_]
@@ -1068,6 +1074,15 @@ class SelectorWorld:
         # scores and distance tables
         scale = 1.0
         if fam in FPS_LIKE:
+            # the raw score table first (reads such as get_distance must not have changed it)
+            try:
+                sa = np.asarray(obj.score(self.heap.get(op["X"]), y), dtype=float)
+                sb = np.asarray(t.score(Xp, yp), dtype=float)
+                fa, fb = np.isfinite(sa), np.isfinite(sb)
+                if sa.shape != sb.shape or not np.array_equal(fa, fb) or np.any(np.abs(sa[fa] - sb[fb]) > tau):
+                    V("distance_table_differs", f"score(): max diff {np.max(np.abs(sa[fa & fb] - sb[fa & fb])) if sa.shape == sb.shape and np.any(fa & fb) else 'shape/inf-pattern'} (tau {tau:.3g})", via="score")
+            except Exception as e:  # noqa: BLE001
+                V("distance_unreadable", f"score: {type(e).__name__}: {e}")
             for meth in ("get_distance", "get_select_distance"):
                 try:
                     da = np.asarray(getattr(obj, meth)(), dtype=float)
